@@ -48,8 +48,9 @@ _c('C15', 'Proved for any controller output and released rows: only tick changes
           'The implementation side of composition (cursors, generators, reporter) is decided by split-run correspondence.',
    'Coq proof (frame theorem + translated tick) + split-run differential correspondence')
 _c('C17', 'Proved: entering DispatchTrip assigns, leaving it by any instruction unassigns, running out of energy on the way releases the request (repaired code path). '
-          'PARTIAL: the state invariant over histories decided by correspondence + monitor.',
-   'Coq proof of transition lemmas over step model + translated assign/unassign kernels; correspondence; monitor')
+          'Proved over ALL finite histories of step operations with instructions from any controller (C17_invariant_over_histories, via the macro frame theorem): a waiting request that records '
+          'a dispatched vehicle names an existing vehicle whose activity is DispatchTrip to exactly that request. PARTIAL: "at most one vehicle per request under the built-in dispatcher" decided by the dispatcher engine.',
+   'Coq proof: state invariant by induction over operation histories (macro frame theorem) + translated assign/unassign kernels; correspondence; monitor')
 _c('C18', 'Proved: the update order is non-queued first then queued sorted by the injective key (enqueue_time, id); every vehicle is processed; of two queued vehicles the earlier is offered a freed plug first. '
           'PARTIAL: the step from processing order to "never left waiting" (needs can_use) decided by correspondence + FIFO monitor.',
    'Coq proof about the processing order (sortedness, permutation) + correspondence + FIFO trace monitor')
